@@ -15,6 +15,8 @@ for f in ["patch.diff", "demo.md"] + [os.path.basename(x) for x in glob.glob(src
 if pkg == "auto":
     md = open(os.path.join(src, "demo.md")).read()
     m = re.search(r"cp [^ ]*_test\.go[^ ]* ([^ \n]+)", md)
+    if not m:
+        m = re.search(r"go test[^|\n]* \./([A-Za-z0-9_/]*[A-Za-z0-9_])", md)
     pkg = m.group(1) if m else "flows/engine"
     pkg = re.sub(r"^/tmp/seed-C[0-9]+/", "", pkg).rstrip("/")
     if pkg.endswith(".go"):
